@@ -142,7 +142,8 @@ Report(b) ==
 
 \* ---- C16: explain / discover are views of the same classification ------------------------
 \* a description and amount typed at the command line (not in any statement) is classified like a transaction would be
-Probes == << [desc |-> "nv1", cents |-> 150000], [desc |-> "nv1", cents |-> 500], [desc |-> "nv2", cents |-> -80000],
+\* (the sign of the amount is part of the query: -1500 is a refund, not a big purchase)
+Probes == << [desc |-> "nv1", cents |-> 150000], [desc |-> "nv1", cents |-> -150000], [desc |-> "nv1", cents |-> 500], [desc |-> "nv2", cents |-> -80000],
              [desc |-> "nv3", cents |-> -200], [desc |-> "nv4", cents |-> -700], [desc |-> "nv3", cents |-> 1250],
              [desc |-> "nvp", cents |-> 500], [desc |-> "nvq", cents |-> 900] >>
 Explain(b, p) == Classified(b, [name |-> "cli"], [desc |-> <<p.desc>>, date |-> <<2025, 1, 1>>, cents |-> p.cents]) @@ [sid |-> 0]
